@@ -8,6 +8,7 @@
 #include "nmtools/utility/at.hpp"
 #include "nmtools/utility/shape.hpp"
 #include <vector>
+#include <array>
 
 namespace verif {
 namespace nm = nmtools;
@@ -93,7 +94,16 @@ inline vj::value project(const V& v) {
         std::vector<size_t> s(shp.begin(), shp.end());
         size_t n = 1; for (auto x : s) n *= x;
         vj::value el = vj::value::array();
-        if (s.size() == 0) {
+        [[maybe_unused]] constexpr auto FIXED_DIM = meta::fixed_dim_v<V>;
+        if constexpr (!meta::is_fail_v<decltype(FIXED_DIM)>) {
+            // the dimension is part of the type: index with a fixed-size index (some views over fixed arrays accept nothing else)
+            constexpr size_t DIM = (size_t)FIXED_DIM;
+            for (size_t i = 0; i < n; i++) {
+                std::array<size_t, DIM> idx{}; size_t k = i;
+                for (size_t q = DIM; q-- > 0;) { idx[q] = k % s[q]; k /= s[q]; }
+                el.push(elem_value(nm::apply_at(v, idx)));
+            }
+        } else if (s.size() == 0) {
             // zero-dimensional array-like
             el.push(elem_value(nm::apply_at(v, std::vector<size_t>{})));
         } else {
